@@ -4,6 +4,7 @@ root(a) := a if a.base is None else a.base     (NumPy: the array that owns a's m
 A view produced from array g by a view-op shares g's memory: root(view) = root(g)          [axiom about view-ops, see `replay`]
 
 Tensor.grad (getter), for a tensor t with B := t._base:
+  t is a constant view                                            -> returns t._grad (never written by back-propagation), writes nothing (C10)
   B is None, or B is a constant tensor                            -> returns t._grad, writes nothing  (C01: a non-constant view of a
                                                                     constant base still reports the gradient it received)
   B is a non-constant tensor (t is a view of it):
@@ -152,8 +153,12 @@ def harness(ctx: Ctx):
     cur = ctx.heap
     # a view of a CONSTANT base has nothing to window onto (constants never hold a gradient, C10): it reports its own gradient, like an owner
     base_const = H0[("Tensor", "_constant")][base0]
-    is_view = z3.And(base0 != 0, z3.Not(base_const))
+    self_const = H0[("Tensor", "_constant")][me.ref]
+    is_view = z3.And(base0 != 0, z3.Not(base_const), z3.Not(self_const))
     # ---- owners ---------------------------------------------------------------------------------------------------------
+    # C10: a constant tensor does not take part in its base's gradient: as a view of a non-constant base it reports its own `_grad`
+    # slot (which back-propagation never writes for a constant: Operation.backward skips constants, C10.constants_untouched)
+    ctx.oblige("C10.getter.constant_view_does_not_window_onto_base_gradient", z3.Implies(z3.And(self_const, base0 != 0), rz == H0[("Tensor", "_grad")][me.ref]), **meta)
     ctx.oblige("C06.getter.owner.returns_own_grad", z3.Implies(z3.Not(is_view), rz == H0[("Tensor", "_grad")][me.ref]), **meta)
     ctx.oblige("C06.getter.owner.writes_nothing", z3.Implies(z3.Not(is_view), z3.And(*[cur[k] == H0[k] for k in H0])), **meta)
     # ---- views ----------------------------------------------------------------------------------------------------------
